@@ -1,6 +1,7 @@
 package hosts
 
 import (
+	"bufio"
 	"bytes"
 	"errors"
 	"fmt"
@@ -250,10 +251,23 @@ const (
 	fZeroReads
 	fDataEOF
 	fErrAfter
+	// the standard library's own readers, as concrete types (code that special-cases them takes another path)
+	fBytesBuffer
+	fBytesReader
+	fStringsReader
+	fBufioReader
 	nFrag
 )
 
-var fragNames = []string{"whole", "1-byte reads", "random chunks", "(0,nil) reads interleaved", "data+EOF in one call", "error after k bytes"}
+var fragNames = []string{"whole", "1-byte reads", "random chunks", "(0,nil) reads interleaved", "data+EOF in one call", "error after k bytes", "*bytes.Buffer", "*bytes.Reader", "*strings.Reader", "*bufio.Reader"}
+
+// stdNamed gives a standard reader a Name method.
+type stdNamed struct {
+	io.Reader
+	name string
+}
+
+func (n stdNamed) Name() string { return n.name }
 
 var errInjected = errors.New("injected read failure")
 
@@ -396,6 +410,21 @@ func runParse(c parseCase) (what string, evals int) {
 	source := ""
 	if c.Named {
 		src, source = namedFragReader{fr}, "src-name"
+	}
+	if c.Frag >= fBytesBuffer {
+		switch c.Frag {
+		case fBytesBuffer:
+			src = bytes.NewBuffer(bytes.Clone(b))
+		case fBytesReader:
+			src = bytes.NewReader(b)
+		case fStringsReader:
+			src = strings.NewReader(c.Input)
+		default:
+			src = bufio.NewReaderSize(strings.NewReader(c.Input), 16)
+		}
+		if c.Named {
+			src = stdNamed{src, "src-name"}
+		}
 	}
 	var buf []byte
 	if c.Buf > 0 {
@@ -1048,6 +1077,54 @@ func TestStorage(t *testing.T) {
 			r.NontrivialN(int64(hi - lo))
 			r.Count("large_universe_histories", int64(hi-lo))
 		})
+	}
+	// several sources in one call: each is a hosts file of its own (a last line without a newline ends there)
+	{
+		var q2 int64
+		parts := []string{"192.0.2.1 one.example\n192.0.2.2 two", "192.0.2.3 three.example\n", "", "192.0.2.4 four.example # c", "\n\n192.0.2.1 ONE.example"}
+		for n := 1; n <= len(parts); n++ {
+			for rot := 0; rot < len(parts); rot++ {
+				var rs []io.Reader
+				mm := newModel()
+				var used []string
+				for k := 0; k < n; k++ {
+					p := parts[(rot+k)%len(parts)]
+					used = append(used, p)
+					if k%2 == 0 {
+						rs = append(rs, strings.NewReader(p))
+					} else {
+						rs = append(rs, bytes.NewBufferString(p))
+					}
+					for _, ln := range refLines([]byte(p)) {
+						if rr := refParse(ln); rr.cls == clsOK {
+							mm.add(rr.addr, rr.names)
+						}
+					}
+				}
+				st, err := hostsfile.NewDefaultStorage(rs...)
+				what := ""
+				if err != nil {
+					what = fmt.Sprintf("error %v", err)
+				} else {
+					for _, a := range []string{"192.0.2.1", "192.0.2.2", "192.0.2.3", "192.0.2.4"} {
+						q2++
+						if got := st.ByAddr(netip.MustParseAddr(a)); !slices.Equal(got, mm.names[netip.MustParseAddr(a)]) {
+							what = fmt.Sprintf("ByAddr(%s)=%q, the lines of the sources say %q", a, got, mm.names[netip.MustParseAddr(a)])
+						}
+					}
+					for _, nm := range []string{"one.example", "two", "three.example", "four.example"} {
+						q2++
+						if got := st.ByName(nm); !slices.Equal(got, mm.addrs[nm]) {
+							what = fmt.Sprintf("ByName(%s)=%v, the lines of the sources say %v", nm, got, mm.addrs[nm])
+						}
+					}
+				}
+				if what != "" {
+					r.Violation(fmt.Sprintf("storage-readers:%d:%d", n, rot), fmt.Sprintf("NewDefaultStorage(%d readers with the texts %q): %s", n, used, what), map[string]any{"texts": used})
+				}
+			}
+		}
+		r.Eval(q2)
 	}
 	// storage fed through Parse: NewDefaultStorage(reader) equals Add-by-Add
 	var q int64
